@@ -52,6 +52,7 @@ type FnCtx struct {
 	depth        int
 	closure      bool
 	globalWrites []*types.Var
+	nameSuffix   string // appended to obligation names while deferred calls run at an exit
 }
 
 func (fc *FnCtx) counter(kind string) int {
@@ -65,6 +66,7 @@ func (fc *FnCtx) oblige(st *State, kind string, goal *Term, pos token.Pos, note 
 }
 
 func (fc *FnCtx) obligeNamed(st *State, name, kind string, goal *Term, pos token.Pos, note string) {
+	name += fc.nameSuffix
 	o := &Obligation{Name: name, Kind: kind, Func: fc.name, Hyps: st.Hyps(), Goal: goal, Pos: fc.e.posStr(pos), Note: note}
 	if goal.IsTrue() {
 		o.Verdict = "unsat"
@@ -691,6 +693,48 @@ func (fc *FnCtx) havoc(st *State, targets []modTarget, extra []string) {
 	}
 }
 
+// havocGhosts: a loop whose body calls anything may write to any writer in
+// scope, extend any response trace and set failedDuring.
+func (fc *FnCtx) havocGhosts(st *State, nodes ...ast.Node) {
+	effect := false
+	for _, n := range nodes {
+		if n == nil {
+			continue
+		}
+		ast.Inspect(n, func(x ast.Node) bool {
+			if c, ok := x.(*ast.CallExpr); ok {
+				if id, ok := ast.Unparen(c.Fun).(*ast.Ident); ok {
+					if _, isB := fc.info.Uses[id].(*types.Builtin); isB {
+						return true
+					}
+				}
+				if tv, ok := fc.info.Types[c.Fun]; ok && tv.IsType() {
+					return true
+				}
+				effect = true
+			}
+			return true
+		})
+	}
+	if !effect {
+		return
+	}
+	ec := fc.ec(st)
+	st.ghost[failedKey] = Var(fc.e.fresher.name("failedDuring"), SBool)
+	for _, v := range st.vars {
+		switch w := v.(type) {
+		case *IfaceV:
+			if _, isBuf := ec.bufferObject(w); isBuf {
+				continue
+			}
+			st.ghost["out:"+writerKey(ec, w)] = Var(fc.e.fresher.name("out"), SStr)
+			if _, has := st.ghost["tr:"+writerKey(ec, w)]; has {
+				ec.havocGhost(&ast.CallExpr{Fun: ast.NewIdent("tr"), Args: []ast.Expr{&valueExpr{v: w}}})
+			}
+		}
+	}
+}
+
 func fieldType(t types.Type, name string) types.Type {
 	st, ok := t.Underlying().(*types.Struct)
 	if !ok {
@@ -749,6 +793,7 @@ func (fc *FnCtx) execFor(st *State, x *ast.ForStmt) []Outcome {
 	targets := fc.assignedIn(x.Body, x.Post, x.Cond)
 	head := st.Clone()
 	fc.havoc(head, targets, ls.ModExtra)
+	fc.havocGhosts(head, x.Body, x.Post, x.Cond)
 	fc.assumeInvariants(head, ls, nil)
 	fc.applyUses(head, fmt.Sprintf("loop%d.head", n))
 	var cond *Term = True
@@ -839,6 +884,7 @@ func (fc *FnCtx) execRange(st *State, x *ast.RangeStmt) []Outcome {
 	targets := fc.assignedIn(x.Body)
 	head := st.Clone()
 	fc.havoc(head, targets, ls.ModExtra)
+	fc.havocGhosts(head, x.Body)
 	idx := Var(fc.e.fresher.name(keyName), SInt)
 	head.Assume(And(Le(Int(0), idx), Le(idx, length)))
 	scope := map[string]Value{keyName: idx}
@@ -998,6 +1044,12 @@ func (e *Engine) contractForFunc(fn *types.Func) *Contract {
 func (fc *FnCtx) applyUses(st *State, where string) {
 	if fc.c == nil {
 		return
+	}
+	for _, l := range fc.c.Lets {
+		if l.Where == where {
+			sc := fc.specCtx(st, nil)
+			st.ghost["let:"+l.Text] = sc.eval(l.Expr)
+		}
 	}
 	for _, a := range fc.c.Asserts {
 		if a.Where == where {
